@@ -240,6 +240,8 @@ pub struct Exec {
     pub classes: Vec<String>,
     /// tolerated, counted observations (e.g. refused_by_panic)
     pub notes: Vec<String>,
+    /// additive counters reported in the evidence (e.g. values_checked)
+    pub counters: Vec<(String, u64)>,
 }
 
 impl Exec {
@@ -254,6 +256,14 @@ impl Exec {
     }
     pub fn ok(&self) -> bool {
         self.failures.is_empty()
+    }
+    pub fn count(&mut self, k: impl Into<String>, n: u64) {
+        self.counters.push((k.into(), n));
+    }
+    pub fn note_n(&mut self, k: impl Into<String>, n: u64) {
+        if n > 0 {
+            self.counters.push((format!("tolerated:{}", k.into()), n));
+        }
     }
 }
 
@@ -396,10 +406,13 @@ fn eval_case<P: Prop>(p: &P, case: &P::Case, known: &[Known], stats: &Stats, rec
             *c.entry(k.clone()).or_insert(0) += 1;
         }
     }
-    if !ex.notes.is_empty() {
+    if !ex.notes.is_empty() || !ex.counters.is_empty() {
         let mut c = stats.notes.lock().unwrap();
         for k in &ex.notes {
             *c.entry(k.clone()).or_insert(0) += 1;
+        }
+        for (k, n) in &ex.counters {
+            *c.entry(k.clone()).or_insert(0) += *n;
         }
     }
     let mut unknown = Vec::new();
@@ -638,7 +651,7 @@ pub fn run<P: Prop>(p: &P, tier: Tier) -> i32 {
         "enumerated_cases": n_fixed,
         "random_cases_requested": total,
         "class_histogram": classes,
-        "tolerated_observations": notes,
+        "counters_and_tolerated_observations": notes,
         "known_finding_hits": known_hits,
         "threads": nthreads,
     });
